@@ -298,15 +298,18 @@ fn make_cat(nodes: ir::NodeList) -> ir::Node {
     }
 }
 
-fn make_alt(nodes: ir::NodeList) -> ir::Node {
-    let mut mright = None;
-    for node in nodes.into_iter().rev() {
-        match mright {
-            None => mright = Some(node),
-            Some(right) => mright = Some(ir::Node::Alt(Box::new(node), Box::new(right))),
+fn make_alt(mut nodes: ir::NodeList) -> ir::Node {
+    // Ordered choice is associative, so build a balanced tree rather than a right-leaning
+    // chain: the IR walkers recurse on the tree, and a chain of many thousands of
+    // alternatives would exhaust the stack.
+    match nodes.len() {
+        0 => ir::Node::Empty,
+        1 => nodes.pop().unwrap(),
+        n => {
+            let right = nodes.split_off(n / 2);
+            ir::Node::Alt(Box::new(make_alt(nodes)), Box::new(make_alt(right)))
         }
     }
-    mright.unwrap_or(ir::Node::Empty)
 }
 
 /// \return a CodePointSet for a given character escape (positive or negative).
